@@ -372,3 +372,162 @@ Proof.
 Qed.
 Example res53_small_values : bits_of (res53 0) = 0%Z /\ bits_of (res53 1) = 4318952042648305664%Z.
 Proof. vm_compute. split; reflexivity. Qed.
+
+(* ================================================================ histories: parameters never go stale *)
+(* Uniform: a reference interpreter without the stored member [range] *)
+Definition uspec_step (mn mx : b64) (st : rstate) (op : uop) : option uout * (b64 * b64 * rstate) :=
+  match op with
+  | UGet => let '(v, st') := next_raw st in (Some (mkUOut v (uniform_value mn mx v) false), (mn, mx, st'))
+  | UGetInt => let '(v, st') := next_raw st in (Some (mkUOut v (uniform_value mn mx v) true), (mn, mx, st'))
+  | USetMin x => (None, (x, mx, st))
+  | USetMax x => (None, (mn, x, st))
+  | USetSeed s => (None, (mn, mx, set_seed s))
+  end.
+Fixpoint uspec_run (mn mx : b64) (st : rstate) (ops : list uop) : list uout :=
+  match ops with
+  | [] => []
+  | op :: t => let '(r, (mn', mx', st')) := uspec_step mn mx st op in
+               match r with Some x => x :: uspec_run mn' mx' st' t | None => uspec_run mn' mx' st' t end
+  end.
+
+Definition uinv (o : uobj) : Prop := uo_range o = fsub (uo_max o) (uo_min o).
+
+Lemma ustep_refines o op : uinv o ->
+  uinv (snd (ustep o op)) /\
+  fst (ustep o op) = fst (uspec_step (uo_min o) (uo_max o) (uo_st o) op) /\
+  (uo_min (snd (ustep o op)), uo_max (snd (ustep o op)), uo_st (snd (ustep o op)))
+    = snd (uspec_step (uo_min o) (uo_max o) (uo_st o) op).
+Proof.
+  intros I. destruct o as [mn mx rg st]. unfold uinv in *. cbn [uo_min uo_max uo_range uo_st] in *. subst rg.
+  destruct op; cbn [ustep uspec_step]; unfold uget; cbn [uo_min uo_max uo_range uo_st];
+    try (destruct (next_raw st) as [v st']); cbn [fst snd uo_min uo_max uo_range uo_st]; repeat split; reflexivity.
+Qed.
+
+(* every value of a history of draws, setMin, setMax and setSeed is the value for the bounds in force at that
+   call and the next raw draw of the stream: the stored range = max - min never goes stale *)
+Lemma uniform_history_refines ops : forall o, uinv o ->
+  fst (urun o ops) = uspec_run (uo_min o) (uo_max o) (uo_st o) ops.
+Proof.
+  induction ops as [|op t IH]; intros o I; [reflexivity|].
+  cbn [urun uspec_run]. destruct (ustep_refines o op I) as (I' & E1 & E2).
+  destruct (ustep o op) as [r o1]. cbn [fst snd] in *.
+  destruct (uspec_step (uo_min o) (uo_max o) (uo_st o) op) as [r' [[mn' mx'] st']]. cbn [fst snd] in *.
+  subst r'. injection E2 as <- <- <-. specialize (IH o1 I').
+  destruct (urun o1 t) as [l o2]. cbn [fst] in *. rewrite IH. destruct r; reflexivity.
+Qed.
+
+Lemma uniform_history_new mn mx seed ops :
+  fst (urun (unew mn mx seed) ops) = uspec_run mn mx (set_seed seed) ops.
+Proof. apply (uniform_history_refines ops (unew mn mx seed)). reflexivity. Qed.
+
+(* Gaussian *)
+Fixpoint somes {A : Type} (l : list (option A)) : list A :=
+  match l with [] => [] | Some x :: t => x :: somes t | None :: t => somes t end.
+
+(* the value handed out is mean + stddev * (unit deviate), with the parameters in force at the call *)
+Lemma gget_value_law fuel o r o' : gget RG fuel o = Some (r, o') ->
+  o_val r = o_mean r + o_sd r * o_dev r /\ o_mean r = go_mean o /\ o_sd r = go_sd o /\
+  go_mean o' = go_mean o /\ go_sd o' = go_sd o.
+Proof.
+  unfold gget. destruct (go_cache o) as [g|].
+  - intros H. injection H as <- <-. cbn. repeat split; ring.
+  - destruct (polar RG fuel (go_us o)) as [[[[x y] m] rest]|]; [|discriminate].
+    intros H. injection H as <- <-. cbn. repeat split; ring.
+Qed.
+
+Lemma gauss_history_value_law fuel ops : forall o r, In (Some r) (grun RG fuel o ops) ->
+  o_val r = o_mean r + o_sd r * o_dev r.
+Proof.
+  induction ops as [|op t IH]; intros o r H; [destruct H|].
+  destruct op; cbn [grun] in H; try (eapply IH; eassumption).
+  destruct (gget RG fuel o) as [[r1 o1]|] eqn:E.
+  - destruct H as [H|H]; [injection H as <-; now apply (gget_value_law fuel o r1 o1) | eapply IH; eassumption].
+  - destruct H as [H|[]]. discriminate.
+Qed.
+
+(* stddev := 0 makes the next value exactly the mean, whatever was cached *)
+Lemma gauss_history_zero_sd fuel ops o r : In (Some r) (grun RG fuel o ops) -> o_sd r = 0 -> o_val r = o_mean r.
+Proof. intros H Z. rewrite (gauss_history_value_law fuel ops o r H), Z. ring. Qed.
+
+(* the parameters attached to the values are exactly the latest ones set before each call *)
+Lemma gauss_history_params fuel ops : forall o, ~ In None (grun RG fuel o ops) ->
+  map (fun r => (o_mean r, o_sd r)) (somes (grun RG fuel o ops)) = gparams (go_mean o) (go_sd o) ops.
+Proof.
+  induction ops as [|op t IH]; intros o NS; [reflexivity|].
+  destruct op; cbn [grun gparams] in *; try (apply (IH (mkGO _ _ _ _)); exact NS).
+  destruct (gget RG fuel o) as [[r1 o1]|] eqn:E.
+  - destruct (gget_value_law fuel o r1 o1 E) as (_ & M & S & M' & S').
+    cbn [somes map]. rewrite M, S. f_equal. rewrite <- M', <- S'. apply IH.
+    intros C. apply NS. now right.
+  - exfalso. apply NS. now left.
+Qed.
+
+(* the unit deviates depend on the stream and on the reseeds only, not on mean / stddev or on when they change *)
+Section DeviatesIndependent.
+Context {T : Type} (G : GOps T).
+Lemma gget_params_irrelevant fuel o m s :
+  match gget G fuel o, gget G fuel (mkGO m s (go_cache o) (go_us o)) with
+  | Some (r, o'), Some (r2, o2) => o_dev r = o_dev r2 /\ go_cache o' = go_cache o2 /\ go_us o' = go_us o2 /\
+                                    go_mean o2 = m /\ go_sd o2 = s
+  | None, None => True
+  | _, _ => False
+  end.
+Proof.
+  unfold gget. cbn [go_cache go_us go_mean go_sd]. destruct (go_cache o) as [g|]; [cbn; tauto|].
+  destruct (polar G fuel (go_us o)) as [[[[x y] mm] rest]|]; cbn; tauto.
+Qed.
+
+Lemma gauss_history_deviates_independent fuel ops : forall o m s,
+  map (@o_dev T) (somes (grun G fuel o ops)) =
+  map (@o_dev T) (somes (grun G fuel (mkGO m s (go_cache o) (go_us o)) (gerase ops))).
+Proof.
+  induction ops as [|op t IH]; intros o m s; [reflexivity|].
+  destruct op; cbn [grun gerase].
+  - pose proof (gget_params_irrelevant fuel o m s) as P.
+    destruct (gget G fuel o) as [[r o']|], (gget G fuel (mkGO m s (go_cache o) (go_us o))) as [[r2 o2]|]; try contradiction.
+    + destruct P as (D & C & U & M & S). cbn [somes map]. rewrite D. f_equal.
+      rewrite (IH o' m s). destruct o2 as [m2 s2 c2 u2]. cbn in *. subst. reflexivity.
+    + reflexivity.
+  - apply (IH (mkGO m0 (go_sd o) (go_cache o) (go_us o)) m s).
+  - apply (IH (mkGO (go_mean o) s0 (go_cache o) (go_us o)) m s).
+  - cbn [go_mean go_sd]. apply (IH (mkGO (go_mean o) (go_sd o) None us) m s).
+Qed.
+End DeviatesIndependent.
+
+(* a reseed discards the cached second deviate: the next value starts a fresh pair of the new stream *)
+Lemma gauss_reseed_clears_cache fuel o us t :
+  grun RG fuel o (GSetSeed us :: GGet :: t) =
+  match polar RG fuel us with
+  | Some (x, y, m, rest) =>
+      Some (mkGOut (go_mean o) (go_sd o) (x * m) (go_mean o + go_sd o * x * m))
+      :: grun RG fuel (mkGO (go_mean o) (go_sd o) (Some (y * m)) rest) t
+  | None => [None]
+  end.
+Proof. cbn [grun]. unfold gget. cbn [go_cache go_us go_mean go_sd]. destruct (polar RG fuel us) as [[[[x y] m] rest]|]; reflexivity. Qed.
+
+(* getValue of the history machine is the getValue of the single-call model above *)
+Lemma gget_matches_gauss_value fuel o :
+  match gget RG fuel o, gauss_value RG fuel (go_mean o) (go_sd o) (go_cache o) (go_us o) with
+  | Some (r, o'), Some (v, c, rest) => o_val r = v /\ go_cache o' = c /\ go_us o' = rest
+  | None, None => True
+  | _, _ => False
+  end.
+Proof.
+  unfold gget, gauss_value. destruct (go_cache o); [cbn; tauto|].
+  destruct (polar RG fuel (go_us o)) as [[[[x y] m] rest]|]; cbn; tauto.
+Qed.
+
+(* non-vacuity: a history with a parameter change after ONE draw; the second value uses the new parameters *)
+Example gauss_history_example :
+  let o := mkGO 10 2 None [1 / 2; 3 / 4] in
+  exists z1 z2, grun RG 4 o [GGet; GSetMean 100; GSetSd 0; GGet]
+    = [Some (mkGOut 10 2 z1 (10 + 2 * 0 * multiplier RG 0 (1 / 2))); Some (mkGOut 100 0 z2 (100 + 0 * z2))].
+Proof.
+  cbn [grun]. unfold gget. cbn [go_cache go_us go_mean go_sd polar].
+  replace (centred RG (1 / 2)) with 0 by (unfold centred; cbn; lra).
+  replace (centred RG (3 / 4)) with (1 / 2) by (unfold centred; cbn; lra).
+  assert (A : accepted RG 0 (1 / 2) = true).
+  { unfold accepted. cbn. destruct (Rle_dec 1 _) as [H|H]; [exfalso; lra|].
+    destruct (Req_EM_T _ 0) as [E|E]; [exfalso; lra | reflexivity]. }
+  rewrite A. cbn [go_cache go_us go_mean go_sd g_add g_mul RG]. eexists. eexists. reflexivity.
+Qed.
